@@ -2,12 +2,18 @@
    Statements only; proofs in Proofs/EqP.v.  Model/Eq.v evaluates == and !=
    by Python's rich-comparison protocol over the __eq__/__ne__ each class
    defines or inherits.
-   SCOPE OF THE THEOREMS: `flat` values - every scalar kind (None, bool, number,
-   str, Uri, Bin, Ref, XStr, Quantity, Coordinate, the three singletons, date,
-   time, date-time).  For lists and dicts the full statements are the same
-   with `flat` dropped; they are NOT proved here (C19_*_partial in that sense)
-   and are covered by the correspondence check only. *)
-From HS Require Import Base.Prelude Model.Eq Proofs.EqP.
+   SCOPE OF THE THEOREMS: the first group is about `flat` values - every scalar kind
+   (None, bool, number, str, Uri, Bin, Ref, XStr, Quantity, Coordinate, the three
+   singletons, date, time, date-time).  The C19_containers_* group (Proofs/EqContP.v)
+   is about ALL values, lists and dicts nested to any depth included: != is the
+   complement of ==, == raises nothing but TypeError, == is reflexive (NaN-free
+   values, unique dict keys), symmetric on nested lists, and symmetric on every value
+   whenever neither order raises (a dict is compared in the order of the left
+   operand's keys: with two mismatches one of which raises the two orders differ -
+   C19_containers_dict_order is that witness, and Python does the same). *)
+From Coq Require Import List.
+From HS Require Import Base.Prelude Model.Eq Proofs.EqP Proofs.EqContP.
+Import ListNotations.
 Open Scope Z_scope.
 
 (* == is symmetric *)
@@ -121,3 +127,33 @@ Proof.
   - intros c m [H|[]]. inversion H; subst. split; [constructor | intros k v []].
   - intros r [H|[]]. subst. intros k v [H|[]]. inversion H; subst. split; reflexivity.
 Qed.
+
+(* ---------- all values: lists and dicts nested to any depth ---------- *)
+Theorem C19_containers_ne : forall a b, py_ne a b = neg_res (py_eq a b).
+Proof. exact py_ne_compl_all. Qed.
+Theorem C19_containers_total : forall a b, match py_eq a b with Ok _ => True | Raise e => e = TypeError end.
+Proof. exact py_eq_total_all. Qed.
+Theorem C19_containers_refl : forall a, good a = true -> py_eq a a = Ok true /\ py_ne a a = Ok false.
+Proof. intros a G. split; [apply py_eq_refl_all|apply py_ne_refl_all]; exact G. Qed.
+Theorem C19_containers_sym_lists : forall a b, dict_free a = true -> dict_free b = true -> py_eq a b = py_eq b a.
+Proof. exact py_eq_sym_lists. Qed.
+Theorem C19_containers_sym : forall a b r r', keyed a = true -> keyed b = true -> py_eq a b = Ok r -> py_eq b a = Ok r' -> r = r'.
+Proof. exact py_eq_sym_all. Qed.
+(* the order of a dict comparison shows when one mismatch raises: {x: 1 u, y: 1} against {y: 2, x: 1 v} *)
+Example C19_containers_dict_order :
+  let one := NFin 1 0 true in let two := NFin 2 0 true in
+  let a := HDict [([120%N], HQty one (Some [117%N])); ([121%N], HNum one)] in
+  let b := HDict [([121%N], HNum two); ([120%N], HQty one (Some [118%N]))] in
+  py_eq a b = Raise TypeError /\ py_eq b a = Ok false /\ keyed a = true /\ keyed b = true.
+Proof. vm_compute. repeat split; reflexivity. Qed.
+(* non-vacuity: a nested value satisfying the hypotheses *)
+Example C19_containers_nonvacuous :
+  let v := HList [HDict [([97%N], HList [HNum (NFin 1 0 true); HStr [98%N]]); ([99%N], HNone)]; HMarker] in
+  good v = true /\ keyed v = true /\ py_eq v v = Ok true /\ dict_free (HList [HList [HNone]]) = true.
+Proof. vm_compute. repeat split; reflexivity. Qed.
+
+Print Assumptions C19_containers_ne.
+Print Assumptions C19_containers_total.
+Print Assumptions C19_containers_refl.
+Print Assumptions C19_containers_sym_lists.
+Print Assumptions C19_containers_sym.
